@@ -65,12 +65,21 @@ type edit struct {
 	seq      int
 }
 
-// Generate writes the overlay for repo under verif/.build and returns the
-// path of the overlay JSON.
-func Generate(repo, verif string) (string, error) {
+// Generate writes the overlay for the source tree src under verif/.build and
+// returns the path of the overlay JSON.  The overlay keys are paths under
+// repo (the directory the harness module's replace directive points to); src
+// is normally the same directory, but may be a scratch copy (mutation runs),
+// in which case every file of src that differs from repo is mapped too, so
+// that the build sees exactly the scratch tree.
+func Generate(src, repo, verif, tag string) (string, error) {
 	build := filepath.Join(verif, ".build")
-	ovdir := filepath.Join(build, "ov")
+	ovdir := filepath.Join(build, "ov"+tag)
 	replace := map[string]string{}
+	if src != repo {
+		if err := mapTree(src, repo, replace); err != nil {
+			return "", err
+		}
+	}
 
 	// 1. rewritten copies
 	pkgs := make([]string, 0, len(conf))
@@ -79,16 +88,17 @@ func Generate(repo, verif string) (string, error) {
 	}
 	sort.Strings(pkgs)
 	for _, p := range pkgs {
-		files, _ := filepath.Glob(filepath.Join(repo, p, "*.go"))
+		files, _ := filepath.Glob(filepath.Join(src, p, "*.go"))
 		for _, f := range files {
 			if strings.HasSuffix(f, "_test.go") {
 				continue
 			}
-			src, err := os.ReadFile(f)
+			data, err := os.ReadFile(f)
 			if err != nil {
 				return "", err
 			}
-			out, changed, err := Rewrite(f, src, p, conf[p])
+			key := filepath.Join(repo, p, filepath.Base(f))
+			out, changed, err := Rewrite(key, data, p, conf[p])
 			if err != nil {
 				return "", fmt.Errorf("%s: %w", f, err)
 			}
@@ -99,7 +109,7 @@ func Generate(repo, verif string) (string, error) {
 			if err := writeIfChanged(dst, out); err != nil {
 				return "", err
 			}
-			replace[f] = dst
+			replace[key] = dst
 		}
 	}
 
@@ -128,11 +138,61 @@ func Generate(repo, verif string) (string, error) {
 	}
 
 	b, _ := json.MarshalIndent(map[string]any{"Replace": replace}, "", " ")
-	ov := filepath.Join(build, "overlay.json")
+	ov := filepath.Join(build, "overlay"+tag+".json")
 	if err := writeIfChanged(ov, b); err != nil {
 		return "", err
 	}
 	return ov, nil
+}
+
+// mapTree maps every .go file (and go.mod is left alone) of src that is new
+// or differs from repo, and marks files deleted in src as deleted.
+func mapTree(src, repo string, replace map[string]string) error {
+	seen := map[string]bool{}
+	err := filepath.Walk(src, func(path string, info os.FileInfo, err error) error {
+		if err != nil {
+			return nil
+		}
+		if info.IsDir() {
+			if n := info.Name(); n == ".git" || n == "static" {
+				return filepath.SkipDir
+			}
+			return nil
+		}
+		if !strings.HasSuffix(path, ".go") || strings.HasSuffix(path, "_test.go") {
+			return nil
+		}
+		rel, _ := filepath.Rel(src, path)
+		seen[rel] = true
+		a, _ := os.ReadFile(path)
+		b, err := os.ReadFile(filepath.Join(repo, rel))
+		if err != nil || !bytes.Equal(a, b) {
+			replace[filepath.Join(repo, rel)] = path
+		}
+		return nil
+	})
+	if err != nil {
+		return err
+	}
+	return filepath.Walk(repo, func(path string, info os.FileInfo, err error) error {
+		if err != nil {
+			return nil
+		}
+		if info.IsDir() {
+			if n := info.Name(); n == ".git" || n == "static" {
+				return filepath.SkipDir
+			}
+			return nil
+		}
+		if !strings.HasSuffix(path, ".go") || strings.HasSuffix(path, "_test.go") {
+			return nil
+		}
+		rel, _ := filepath.Rel(repo, path)
+		if !seen[rel] {
+			replace[path] = ""
+		}
+		return nil
+	})
 }
 
 var modDirCache = map[string]string{}
